@@ -191,8 +191,10 @@ def _unk(*vs) -> bool:
 
 
 class Walk:
-    def __init__(self, repo: Repo, view: FuncInfo, name: str) -> None:
+    def __init__(self, repo: Repo, view: FuncInfo, name: str, fields: dict | None = None) -> None:
         self.repo, self.T, self.view, self.name = repo, types_of(repo), view, name
+        self.fields = fields or {}  # text of an attribute expression (`self._sorted_names`) -> concrete value of a witness run
+        self.matched: set[str] = set()  # listed names (of a witness run) that were positively recognised as ancestor-or-self
         self.looked: set[str] = set()
         self.scan = False
         self.runs = 0
@@ -452,6 +454,8 @@ class Walk:
                 r = a in b
             except TypeError:
                 return _d(a, b)
+            if r and self.fields and isinstance(a, str) and isinstance(b, (list, tuple)) and (self.name == a or self.name.startswith(a + ".")):
+                self.matched.add(a)  # a derived name found among the (concrete) listed names of a witness run
             return r if isinstance(op, ast.In) else not r
         if isinstance(op, (ast.Is, ast.IsNot)):
             if _isu(a) or _isu(b):
@@ -469,6 +473,8 @@ class Walk:
             return _t(a, b)
         try:
             if isinstance(op, ast.Eq):
+                if self.fields and isinstance(a, str) and a == b and (self.name == a or self.name.startswith(a + ".")):
+                    self.matched.add(a)
                 return a == b
             if isinstance(op, ast.NotEq):
                 return a != b
@@ -530,6 +536,14 @@ class Walk:
                     parts.append(str(x))
             return "".join(parts)
         if isinstance(e, ast.Attribute):
+            if self.fields:
+                try:
+                    text = ast.unparse(e)
+                except Exception:  # noqa: BLE001
+                    text = ""
+                if text in self.fields:
+                    val = self.fields[text]
+                    return list(val) if isinstance(val, list) else val
             v = self.expr(e.value, env, ctx, depth)
             if isinstance(v, str) and v != "SELF":
                 return _Bound(v, e.attr)  # "{}.{}".format, ".".join used as a function
@@ -865,6 +879,21 @@ class Walk:
             out = self.look(_plain(a), node, recv)
         return out if len(allargs) == 1 else UNK
 
+    def pyfunc(self, fn, ctx, depth):
+        """A Python callable for a key function the unrolling can apply (str.lower, a lambda over strings)."""
+        if isinstance(fn, _Lib) and fn.name.startswith("str."):
+            return lambda x, _m=fn.name[4:]: getattr(x, _m)()
+        if isinstance(fn, _Lib) and fn.name == "len":
+            return len
+        if isinstance(fn, (_Closure, FuncInfo, _Bound, _Partial)):
+            def call(x, _fn=fn):
+                r = self.apply(_fn, [x], ctx, depth)
+                if _isu(r) or _has_opq(r):
+                    raise ValueError("opaque key")
+                return tuple(r) if isinstance(r, list) else r
+            return call
+        return None
+
     def resolve(self, call: ast.Call, ctx) -> FuncInfo | None:
         src = getattr(call, "_src", None)
         c_ctx, orig = src if src is not None else (ctx, call)
@@ -909,6 +938,8 @@ class Walk:
                 return list(getattr(s, m)(*args))
             if m == "join":
                 return s.join(list(a0)) if isinstance(a0, (list, tuple)) and all(isinstance(x, str) and x != "SELF" for x in a0) else _d(s, a0)
+            if m == "startswith" and self.fields and isinstance(a0, str) and s == self.name and s.startswith(a0) and a0.endswith("."):
+                self.matched.add(a0[:-1])
             if m in ("startswith", "endswith", "find", "rfind", "index", "rindex", "count", "removeprefix", "removesuffix", "strip", "rstrip", "lstrip", "replace", "lower", "upper", "casefold", "isidentifier", "format", "__add__", "__mod__", "__contains__", "__eq__", "__getitem__", "__len__", "title", "capitalize", "encode", "isalnum", "isalpha", "isdigit", "zfill", "center", "ljust", "rjust", "expandtabs", "swapcase"):
                 r = getattr(s, m)(*[tuple(a) if isinstance(a, list) and m in ("startswith", "endswith", "__mod__") else a for a in args])
                 return r if isinstance(r, (str, int, bool)) else _d(s, *args)
@@ -1092,6 +1123,27 @@ class Walk:
             for a in self.iterate(a0):
                 out += self.iterate(a)
             return out
+        if n in ("bisect", "bisect_left", "bisect_right") and len(args) >= 2 and isinstance(a0, (list, tuple)) and a0 and all(isinstance(x, str) for x in a0) and (isinstance(args[1], str) or (isinstance(args[1], (list, tuple)) and all(isinstance(x, str) for x in args[1]))) and not _unk(*args[2:]):
+            # a witness run: the listed names are concrete
+            import bisect as _bisect
+
+            key = kwargs.get("key")
+            kw = {}
+            if key is not None:
+                fn = self.pyfunc(key, ctx, depth)
+                if fn is None:
+                    return OPQ
+                kw["key"] = fn
+            for nm_, v_ in kwargs.items():
+                if nm_ in ("lo", "hi") and isinstance(v_, int):
+                    kw[nm_] = v_
+            probe = tuple(args[1]) if isinstance(args[1], list) else args[1]
+            if isinstance(probe, tuple) != (key is not None and isinstance(kw["key"](a0[0]), tuple)):
+                return OPQ  # the probe and the keyed elements are not comparable
+            try:
+                return getattr(_bisect, n)(list(a0), probe, *[a for a in args[2:] if isinstance(a, int)], **kw)
+            except Exception:  # noqa: BLE001
+                return OPQ
         if n in ("bisect", "bisect_left", "bisect_right", "insort", "insort_left", "insort_right"):
             return UNK  # a position in the listed names (the search order is decided by rules/c05_bisect.py)
         if n in ("dict", "defaultdict", "OrderedDict", "Counter", "getattr", "hasattr", "id", "type", "print", "hash", "callable", "cast"):
@@ -1201,3 +1253,45 @@ def check_walk(repo: Repo, view: FuncInfo) -> tuple[str, str]:
         ex = "; ".join(f"for `{n}` the name(s) {', '.join(repr(m) for m in ms)} are never looked up" for n, ms in missing_all.items())
         return "violated", f"the walk over the ancestors of the module name does not test every ancestor-or-self: {ex}. Descendants of a module listed under such a name (e.g. a top-level package) resolve to no layer"
     return "ok", "unrolled on names with 1 to 4 components: every ancestor of the name and the name itself is looked up"
+
+
+# --------------------------------------------------------------------------- witness runs: order-based skipping over raw-sorted names
+
+WITNESS_LISTED = ["aa", "aa-b", "aa.bb", "aa.bb-c", "aa.bb.cc", "aa.bb.cc-d", "ab", "b.c"]
+WITNESS_QUERIES = ["aa.x", "aa.bb.x", "aa.bb.cc.x", "aa.bb.cc.dd.x", "aa-b.x", "b.c.x"]
+
+
+def order_witness(repo: Repo, view: FuncInfo, field_text: str, key=None) -> tuple[str, str]:
+    """('ok' | 'violated' | 'skipped', explanation).  The lookup is unrolled with the sorted list of listed names bound to a
+    concrete, adversarial content: siblings whose names continue a listed name with a character that sorts below '.'
+    (`aa` < `aa-b` < `aa.bb`), so that raw string order differs from hierarchy order.  Every listed ancestor of the queried name
+    must still be recognised (prefix-tested positively / looked up).  A miss is a concrete counterexample: the lookup skips
+    entries on the assumption that whatever sorts between two related names is related to them."""
+    try:
+        listed = sorted(WITNESS_LISTED, key=key)
+    except Exception:  # noqa: BLE001
+        return "skipped", "the sort key could not be applied to the witness names"
+    tested = 0
+    for q in WITNESS_QUERIES:
+        w = Walk(repo, view, q, fields={field_text: listed})
+        try:
+            w.explore()
+        except (Unsupported, RecursionError):
+            return "skipped", "the lookup uses a construct the abstract unrolling does not interpret"
+        if w.opaque or w.truncated:
+            return "skipped", "the unrolling met values it cannot compute"
+        expected = {n for n in listed if q.startswith(n + ".")}
+        found = w.matched | (w.looked & expected)
+        if w.scan:
+            return "skipped", "listed names other than the sorted list are scanned as well"
+        if not found and not w.looked:
+            return "skipped", "the unrolling saw no comparison with the listed names"
+        tested += 1
+        missing = sorted(expected - found)
+        if missing:
+            return "violated", (
+                f"with the listed modules {listed} (in the order the list is sorted) the lookup of `{q}` never recognises the listed ancestor(s) {missing}: "
+                "entries are skipped on the assumption that names sorting between two related names are related as well, which raw string order does not guarantee "
+                "(`aa` < `aa-b` < `aa.bb`: a sibling whose name continues the parent's name with a character below '.' sorts between a module and its sub modules)"
+            )
+    return ("ok", f"unrolled on {tested} lookups over adversarially named siblings (`aa`, `aa-b`, `aa.bb`, ...): every listed ancestor is recognised") if tested else ("skipped", "no witness lookup could be unrolled")
